@@ -129,6 +129,20 @@ class Ops(object):
                 continue
             self.err(s)
 
+    def filter_key_of(self, e):
+        """filter-index argument that is not literally state[k]: a helper with a single
+        `return state[k]` is the same thing; anything else is reported as the expression
+        itself (and then cannot equal the synthesis side's key)."""
+        if isinstance(e, ast.Call) and isinstance(e.func, ast.Name) and e.func.id in self.m.funcs:
+            h = self.m.funcs[e.func.id]
+            body = [b for b in h.body if not (isinstance(b, ast.Expr) and isinstance(b.value, ast.Constant))]
+            if len(body) == 1 and isinstance(body[0], ast.Return) and body[0].value is not None and h.args.args:
+                k = subscript_key(body[0].value, h.args.args[0].arg)
+                if k is not None:
+                    return k
+                return "<%s() = %s>" % (e.func.id, norm(body[0].value))
+        return "<%s>" % norm(e)
+
     def shift_if(self, s):
         t = s.test
         if not (isinstance(t, ast.Compare) and dotted(t.left) == self.shift_var and isinstance(t.ops[0], ast.Gt) and isinstance(t.comparators[0], ast.Constant) and t.comparators[0].value == 0 and not s.orelse and len(s.body) == 1):
@@ -172,6 +186,8 @@ class Ops(object):
                 arr = dotted(c.args[0].args[0])
                 idx = dotted(c.args[0].args[1])
                 key = subscript_key(c.args[1], "state")
+                if key is None:
+                    key = self.filter_key_of(c.args[1])
                 r, rev = loop_range(s.iter)
                 if view not in ("row", "column") or idx != dotted(s.target) or key is None or r is None:
                     self.err(s)
@@ -290,7 +306,7 @@ def check(repo, tier="quick"):
     res.floor("C11.b", 4)
     res.floor("C11.c", 8)
     res.floor("C11.d", 6)
-    res.floor("C11.e", 3)
+    res.floor("C11.e", 4)
     res.assumptions = [
         "lemma (trusted): for s > 0, ((x << s) + (1 << (s - 1))) >> s == x for every integer x",
         "the synthesis functions are as the standard's pseudocode (pinned by the repository's own equivalence test)",
@@ -552,6 +568,14 @@ def rule_e(repo, res, me):
                 elif seq != pic and count_expr_ok(cnt, "width", seq):
                     rows_ok = True
     res.check(rows_ok and pic_ok, "C11.e", "pad:extends-to-target", where, "each row must be extended to `width` and the picture to `height` (rows: %s, picture: %s)" % (rows_ok, pic_ok), by="rows to width, then picture to height")
+    # the padding is unconditional: the spec-pinned idwt_pad_removal removes it for every configuration
+    # (when nothing needs adding the loops simply do not iterate), so no path may skip it
+    exits = [short(x, 50) for x in ast.walk(fn) if isinstance(x, (ast.Return, ast.Raise, ast.Break, ast.Continue))]
+    conds = []
+    for x in ast.walk(fn):
+        if isinstance(x, (ast.If, ast.IfExp)):
+            conds.append("if %s" % short(x.test, 40))
+    res.check(not exits and not conds, "C11.e", "pad:unconditional", where, "dwt_pad_addition can skip the padding (%s): for the configurations concerned the analysis then works on an unpadded component, drops the samples beyond the last complete group and the round trip is not exact" % "; ".join(exits + conds), by="no early exit, no conditional around the padding loops")
     # padding rows must be distinct objects: the transform works in place
     aliased = []
     for n in ast.walk(fn):
